@@ -65,7 +65,7 @@ theorem anyL_false_iff (box : List Idx) (f : Idx → Idx) (b : Idx → Bool) (j 
 
 /-! ### every operation respects observational equality -/
 
-theorem Obs.sumAxis {S T : FS} (k : Nat) (h : Obs S T) : Obs (sumAxis k S) (sumAxis k T) := by
+theorem obs_sumAxis {S T : FS} (k : Nat) (h : Obs S T) : Obs (sumAxis k S) (sumAxis k T) := by
   have hbox := h.box_eq
   refine ⟨by show S.shape.eraseIdx k = T.shape.eraseIdx k; rw [h.1], fun j _ => ⟨?_, fun _ => ?_⟩⟩
   · show allL S.box _ S.msk j = allL T.box _ T.msk j
@@ -75,17 +75,17 @@ theorem Obs.sumAxis {S T : FS} (k : Nat) (h : Obs S T) : Obs (sumAxis k S) (sumA
     rw [hbox]
     exact pushL_congr _ _ _ _ _ (fun i hi _ => h.val_eq i hi)
 
-theorem Obs.projectAxis {S T : FS} (k m : Nat) (h : Obs S T) : Obs (projectAxis k m S) (projectAxis k m T) := by
+theorem obs_projectAxis {S T : FS} (k m : Nat) (h : Obs S T) : Obs (projectAxis k m S) (projectAxis k m T) := by
   obtain ⟨hs, hb⟩ := h
   refine ⟨by show S.shape.set k (m + 1) = T.shape.set k (m + 1); rw [hs], fun j hj => ?_⟩
   have hj' : j ∈ boxIdx (S.shape.set k (m + 1)) := hj
   have hmsk : (projectAxis k m S).msk j = (projectAxis k m T).msk j := by
-    rw [projectAxis_msk, projectAxis_msk, ← hs]
-    unfold projMsk
-    apply List.any_congr
-    intro hh hhm
-    rw [List.mem_range] at hhm
-    rw [(hb _ (set_mem_box' S.shape k (m + 1) hh j hj' hhm)).1]
+    rw [projectAxis_msk, projectAxis_msk, ← hs, Bool.eq_iff_iff, projMsk_iff, projMsk_iff]
+    constructor
+    · rintro ⟨hh, hhm, hw, hb'⟩
+      exact ⟨hh, hhm, hw, by rw [← (hb _ (set_mem_box' S.shape k (m + 1) hh j hj' hhm)).1]; exact hb'⟩
+    · rintro ⟨hh, hhm, hw, hb'⟩
+      exact ⟨hh, hhm, hw, by rw [(hb _ (set_mem_box' S.shape k (m + 1) hh j hj' hhm)).1]; exact hb'⟩
   refine ⟨hmsk, fun hm => ?_⟩
   rw [projectAxis_dat, projectAxis_dat, ← hs]
   unfold projDat
@@ -103,10 +103,10 @@ theorem Obs.projectAxis {S T : FS} (k m : Nat) (h : Obs S T) : Obs (projectAxis 
     rw [(hb _ (set_mem_box' S.shape k (m + 1) hh j hj' hhm)).2 hmf]
   · rw [projW_zero_of_not_win _ _ _ _ hw]; simp
 
-theorem Obs.reorderCore {S T : FS} (axes : List Nat) (h : Obs S T) : Obs (reorderCore axes S) (reorderCore axes T) := by
+theorem obs_reorderCore {S T : FS} (axes : List Nat) (h : Obs S T) : Obs (reorderCore axes S) (reorderCore axes T) := by
   have hbox := h.box_eq
   refine ⟨by show permIdx 0 axes S.shape = permIdx 0 axes T.shape; rw [h.1], fun j _ => ?_⟩
-  have hmsk : (PopOps.reorderCore axes S).msk j = (PopOps.reorderCore axes T).msk j := by
+  have hmsk : (reorderCore axes S).msk j = (reorderCore axes T).msk j := by
     show anyL S.box _ S.msk j = anyL T.box _ T.msk j
     rw [hbox]
     exact anyL_congr _ _ _ _ _ (fun i hi _ => (h.2 i hi).1)
@@ -128,7 +128,7 @@ theorem combineTwoCore_msk (a b : Nat) (S : FS) (j : Idx) :
   show (accMask _ || _) = _
   rw [accMask_eq_anyL]
 
-theorem Obs.combineTwoCore {S T : FS} (a b : Nat) (h : Obs S T) : Obs (combineTwoCore a b S) (combineTwoCore a b T) := by
+theorem obs_combineTwoCore {S T : FS} (a b : Nat) (h : Obs S T) : Obs (combineTwoCore a b S) (combineTwoCore a b T) := by
   have hbox := h.box_eq
   refine ⟨by show mergeShape a b S.shape = mergeShape a b T.shape; rw [h.1], fun j _ => ⟨?_, fun _ => ?_⟩⟩
   · rw [combineTwoCore_msk, combineTwoCore_msk, hbox, ← h.1]
@@ -138,17 +138,17 @@ theorem Obs.combineTwoCore {S T : FS} (a b : Nat) (h : Obs S T) : Obs (combineTw
     rw [hbox]
     exact pushL_congr _ _ _ _ _ (fun i hi _ => h.val_eq i hi)
 
-theorem Obs.marginalizeCore {S T : FS} (ks : List Nat) (h : Obs S T) : Obs (marginalizeCore ks S) (marginalizeCore ks T) := by
+theorem obs_marginalizeCore {S T : FS} (ks : List Nat) (h : Obs S T) : Obs (marginalizeCore ks S) (marginalizeCore ks T) := by
   induction ks generalizing S T with
   | nil => exact h
-  | cons k ks ih => rw [marginalizeCore_cons, marginalizeCore_cons]; exact ih (h.sumAxis k)
+  | cons k ks ih => rw [marginalizeCore_cons, marginalizeCore_cons]; exact ih (obs_sumAxis k h)
 
-theorem Obs.combineIter {S T : FS} (a : Nat) (rs : List Nat) (h : Obs S T) : Obs (combineIter a rs S) (combineIter a rs T) := by
+theorem obs_combineIter {S T : FS} (a : Nat) (rs : List Nat) (h : Obs S T) : Obs (combineIter a rs S) (combineIter a rs T) := by
   induction rs generalizing S T with
   | nil => exact h
-  | cons r rs ih => rw [combineIter_cons, combineIter_cons]; exact ih (h.combineTwoCore a r)
+  | cons r rs ih => rw [combineIter_cons, combineIter_cons]; exact ih (obs_combineTwoCore a r h)
 
-theorem Obs.maskCorners {S T : FS} (h : Obs S T) : Obs (maskCorners S) (maskCorners T) := by
+theorem obs_maskCorners {S T : FS} (h : Obs S T) : Obs (maskCorners S) (maskCorners T) := by
   refine ⟨h.1, fun j hj => ?_⟩
   obtain ⟨h1, h2⟩ := h.2 j hj
   refine ⟨by show (S.msk j || _) = (T.msk j || _); rw [h1, h.1], fun hm => ?_⟩
@@ -184,14 +184,14 @@ theorem projFrom_eq_steps (p : Nat) (ss ms : List Nat) (S : FS) :
 theorem projectCore_eq_steps (ms : List Nat) (S : FS) : projectCore ms S = projSteps (stepsF 0 S.shape ms) S :=
   projFrom_eq_steps 0 S.shape ms S
 
-theorem Obs.projSteps {S T : FS} (ps : List (Nat × Nat)) (h : Obs S T) : Obs (projSteps ps S) (projSteps ps T) := by
+theorem obs_projSteps {S T : FS} (ps : List (Nat × Nat)) (h : Obs S T) : Obs (projSteps ps S) (projSteps ps T) := by
   induction ps generalizing S T with
   | nil => exact h
-  | cons p ps ih => rw [projSteps_cons, projSteps_cons]; exact ih (h.projectAxis p.1 p.2)
+  | cons p ps ih => rw [projSteps_cons, projSteps_cons]; exact ih (obs_projectAxis p.1 p.2 h)
 
-theorem Obs.projectCore {S T : FS} (ms : List Nat) (h : Obs S T) : Obs (projectCore ms S) (projectCore ms T) := by
+theorem obs_projectCore {S T : FS} (ms : List Nat) (h : Obs S T) : Obs (projectCore ms S) (projectCore ms T) := by
   rw [projectCore_eq_steps, projectCore_eq_steps, ← h.1]
-  exact h.projSteps _
+  exact obs_projSteps _ h
 
 theorem projSteps_shape_length (ps : List (Nat × Nat)) (S : FS) : (projSteps ps S).shape.length = S.shape.length := by
   induction ps generalizing S with
@@ -200,7 +200,7 @@ theorem projSteps_shape_length (ps : List (Nat × Nat)) (S : FS) : (projSteps ps
 
 /-! ### cleanliness is preserved -/
 
-theorem Clean.projectAxis {S : FS} (k m : Nat) (h : Clean S) : Clean (projectAxis k m S) := by
+theorem clean_projectAxis {S : FS} (k m : Nat) (h : Clean S) : Clean (projectAxis k m S) := by
   obtain ⟨h1, h2⟩ := h
   refine ⟨fun s hs => ?_, fun j hj => ?_⟩
   · rw [projectAxis_shape] at hs
@@ -212,10 +212,10 @@ theorem Clean.projectAxis {S : FS} (k m : Nat) (h : Clean S) : Clean (projectAxi
     rw [h2 _ (set_mem_box' S.shape k (m + 1) hh j hj hhm)] at hb
     exact absurd hb (by simp)
 
-theorem Clean.projSteps {S : FS} (ps : List (Nat × Nat)) (h : Clean S) : Clean (projSteps ps S) := by
+theorem clean_projSteps {S : FS} (ps : List (Nat × Nat)) (h : Clean S) : Clean (projSteps ps S) := by
   induction ps generalizing S with
   | nil => exact h
-  | cons p ps ih => rw [projSteps_cons]; exact ih (h.projectAxis p.1 p.2)
+  | cons p ps ih => rw [projSteps_cons]; exact ih (clean_projectAxis p.1 p.2 h)
 
 theorem forall2_insertIdx {α β : Type} {R : α → β → Prop} {l : List α} {m : List β} (h : List.Forall₂ R l m) (k : Nat)
     {x : α} {y : β} (hxy : R x y) : List.Forall₂ R (l.insertIdx k x) (m.insertIdx k y) := by
@@ -235,7 +235,7 @@ theorem eraseIdx_fibre_nonempty (sh : List Nat) (k : Nat) (hk : k < sh.length) (
   have := forall2_insertIdx hj k h0
   rwa [List.insertIdx_eraseIdx_getElem hk] at this
 
-theorem Clean.sumAxis {S : FS} (k : Nat) (hk : k < S.ndim) (h : Clean S) : Clean (sumAxis k S) := by
+theorem clean_sumAxis {S : FS} (k : Nat) (hk : k < S.ndim) (h : Clean S) : Clean (sumAxis k S) := by
   obtain ⟨h1, h2⟩ := h
   refine ⟨fun s hs => h1 s (List.mem_of_mem_eraseIdx hs), fun j hj => ?_⟩
   obtain ⟨i, hi, hij⟩ := eraseIdx_fibre_nonempty S.shape k hk h1 j hj
